@@ -8,6 +8,8 @@ import sys
 
 
 def _reexec_with_hashseed() -> None:
+    if len(sys.argv) > 1 and sys.argv[1] == "c15-config":
+        return  # the hash seed is the variable here
     if os.environ.get("PYTHONHASHSEED") is None:
         env = dict(os.environ)
         env["PYTHONHASHSEED"] = "0"
@@ -32,6 +34,10 @@ def main(argv=None) -> int:
     ps.add_argument("what", choices=["determinism", "sensitivity"])
     ps.add_argument("--properties", default="")
     ps.add_argument("--seeds", type=int, default=200)
+    pk = sub.add_parser("c15-config")
+    pk.add_argument("--seed", type=int, required=True)
+    pk.add_argument("--n", type=int, required=True)
+    pk.add_argument("--tier", default="quick")
     pe = sub.add_parser("explore")
     pe.add_argument("--property", required=True)
     pe.add_argument("--tier", default="quick")
@@ -64,6 +70,10 @@ def main(argv=None) -> int:
         if args.what == "determinism":
             return selftest.determinism(props, args.seeds)
         return selftest.sensitivity(props)
+    if args.cmd == "c15-config":
+        from . import c15
+
+        return c15.config_child(args.seed, args.n, args.tier)
     if args.cmd == "explore":
         from . import explore
 
